@@ -34,6 +34,7 @@ func c14(c *Ctx) {
 	c06R4(c, "R4/C06.R4")
 	sDispatch(c, "R5/S-DISPATCH")
 	c16R1(c, "R5/C16.R1")
+	c14CompatText(c, "R5")
 	sHigher(c, "R6/S-HIGHER")
 	sMainOwned(c, "R7/S-OWNER", "leaderState", "configurations")
 }
@@ -262,4 +263,35 @@ func c14R3(c *Ctx, rule string) {
 			})
 		}
 	}
+}
+
+// c14CompatText: a candidate counts the answer "unexpected command" as a
+// pre-vote grant (the peer is an old server without the RPC). Only the
+// receiving server's dispatcher may produce that text – anything else that
+// manufactures it (a transport mapping EOF or a timeout to it) turns
+// unreachable peers into grants and lets an isolated server inflate its term.
+func c14CompatText(c *Ctx, rule string) {
+	var sites []engine.Site
+	for _, fn := range c.P.AllFuncs() {
+		engine.EachInstr(fn, func(in ssa.Instruction) {
+			cc := engine.CallCommonOf(in)
+			if cc == nil {
+				return
+			}
+			switch c.P.CalleeName(cc) {
+			case "errors.New", "fmt.Errorf":
+			default:
+				return
+			}
+			for _, a := range cc.Args {
+				if k, ok := a.(*ssa.Const); ok && k.Value != nil && strings.Contains(k.Value.ExactString(), "unexpected command") {
+					sites = append(sites, engine.Site{Fn: fn, Instr: in})
+				}
+			}
+		})
+	}
+	c.WhoMay(rule, "build an \"unexpected command\" error", sites, map[string]string{
+		"(*Raft).processRPC":       "the dispatcher's answer to an RPC type it has no handler for",
+		"(*Raft).processHeartbeat": "the fast path's answer to anything but AppendEntries",
+	})
 }
